@@ -17,9 +17,7 @@ from ..repo import AnalysisError, norm, walk_no_nested
 from ..partition import MiniInterp, Opaque, domains_by_scrutinee, FRESH
 
 LEVEL = "other"
-TECHNIQUE = ("branch partition (decision table) of the omission predicates over a complete finite abstraction of "
-             "tag/neighbour names and token types; structural effect analysis of the filter generator; "
-             "reader/writer agreement with the parser's dispatch tables")
+TECHNIQUE = ("branch partition (decision table) of the omission predicates over a complete finite abstraction of tag/neighbour names and token types; evaluation of the filter generator's loop body over token type x attributes x predicate outcomes x namespace with neighbour identity; reader/writer agreement with the parser's dispatch tables")
 CLAIM = ('The complete decision table of is_optional_start/is_optional_end is computed for every tag name '
          '(every constant mentioned, every substring of a string used as an `in` container, and a fresh name '
          'standing for all others) against every neighbour; the set of names that can ever be omitted must lie '
